@@ -30,7 +30,7 @@ anything else raises `RtlilSyntaxError(line, message)`.  `parse(text) -> doc` re
   id       = str, including the leading `\\` (public) or `$` (private)
 
 Strictness: identifiers must start with `\\` or `$`; the declared width of a `W'bits` constant must equal the
-number of digits; wire options are limited to `width`, `input|output|inout N`, `signed` (each at most once;
+number of digits (one exception: `0'0`, which is how the emitter prints a zero-width constant, reads as no bits); wire options are limited to `width`, `input|output|inout N`, `signed` (each at most once;
 `upto`/`offset` are rejected because the emitter never writes them); `sync` rules in processes are rejected;
 every block must be closed by its `end`; no trailing tokens on a line.  `flatten(sigspec)` gives the list of
 chunks LSB first with nested concatenations expanded; widths are left to the consumer.
@@ -111,6 +111,8 @@ def _lex_line(s, ln):
                 while k < n and s[k] in _BITS:
                     k += 1
                 bits = s[j + 1:k]
+                if w == 0 and bits == "0":
+                    bits = ""      # the emitter prints a zero-width constant as 0'0 (Yosys truncates it to no bits)
                 if len(bits) != w:
                     raise RtlilSyntaxError(ln, f"constant {s[i:k]!r}: {len(bits)} digits for declared width {w}")
                 toks.append(("bits", bits))
